@@ -139,6 +139,34 @@ theorem C12_history {cfg : PalCfg} {gb n : Nat} (hgb : GbOK cfg gb) (fuel : Nat)
     abs n (runSets (fuel + 1) c ops).2 = arraySets (abs n c) ops :=
   runSets_refines hgb fuel ops hops c hinv
 
+/-- order-independence across positions: at any point of any history of `Set` calls, two `Set`s at DIFFERENT
+indices may be swapped — whatever follows — and the container at the end is the same array.  The representation
+need not be the same (the palette gains its entries in call order, a rebuild may happen at a different call, so
+the stored indices and the wire bytes can differ); `[Get(0), …, Get(n-1)]` does not. -/
+theorem C12_sets_at_different_indices_commute {cfg : PalCfg} {gb n : Nat} (hgb : GbOK cfg gb) (fuel : Nat)
+    (ops more : List (Nat × Int)) (i j : Nat) (v w : Int) (hij : i ≠ j)
+    (hops : ∀ op ∈ ops ++ [(i, v), (j, w)] ++ more, op.1 < n ∧ InReg gb op.2)
+    (c : Container) (hinv : Inv cfg gb n c) :
+    abs n (runSets (fuel + 1) c (ops ++ [(i, v), (j, w)] ++ more)).2 =
+    abs n (runSets (fuel + 1) c (ops ++ [(j, w), (i, v)] ++ more)).2 := by
+  have app : ∀ (a b : List (Nat × Int)) (xs : List Int), arraySets xs (a ++ b) = arraySets (arraySets xs a) b := by
+    intro a
+    induction a with
+    | nil => intro b xs; rfl
+    | cons p a ih => intro b xs; obtain ⟨pi, pv⟩ := p; simp only [List.cons_append, arraySets, ih]
+  have hops' : ∀ op ∈ ops ++ [(j, w), (i, v)] ++ more, op.1 < n ∧ InReg gb op.2 := by
+    intro op hop
+    apply hops op
+    simp only [List.mem_append, List.mem_cons, List.not_mem_nil, or_false] at hop ⊢
+    rcases hop with (h | h | h) | h
+    · exact Or.inl (Or.inl h)
+    · exact Or.inl (Or.inr (Or.inr h))
+    · exact Or.inl (Or.inr (Or.inl h))
+    · exact Or.inr h
+  rw [(C12_history hgb fuel _ hops c hinv).2.2, (C12_history hgb fuel _ hops' c hinv).2.2]
+  simp only [app, arraySets]
+  rw [List.set_comm _ _ hij]
+
 /-! ### the wire form -/
 
 /-- `WriteTo` emits the protocol's paletted container: the independent decoder reads exactly the entries -/
